@@ -1,5 +1,6 @@
 import PsV.Proofs.Sync
 import PsV.Proofs.SyncLive
+import PsV.Proofs.SyncFair
 import PsV.Proofs.SyncData
 /-!
 # C12 — the parallel line search of the monotonic fit terminates with the same result under every
@@ -371,6 +372,27 @@ theorem C12_weakly_fair_infinite_execution :
     have : lassoPh i = 1 ∨ lassoPh i = 2 ∨ lassoPh i = 3 ∨ lassoPh i = 4 ∨ lassoPh i = 5 := by omega
     rcases this with h | h | h | h | h <;> rw [h] at hl' <;> simp [L] at hl'
 
+/-- **Progress measure that survives spurious wake-ups**: `prog = 3·rank + corr` never increases — neither on a pthread
+    call nor on a spurious wake-up — and strictly decreases on every pthread call except the *futile* ones: a thread
+    that was woken although its predicate is still false re-acquires the mutex (`K`) and waits again (`W`).  A spurious
+    wake-up of a worker whose state is not WAIT also decreases it. -/
+theorem C12_progress_measure (c : Cfg) (hn : 0 < c.n) (s s' : State) (h : Reach c s) (t : Nat) :
+    (step? c s t = some s' → prog c s' ≤ prog c s ∧ (futile c s t = false → prog c s' < prog c s)) ∧
+    (spur? c s t = some s' → prog c s' ≤ prog c s ∧ ∀ w, t = w+1 → s.st w ≠ .wait → prog c s' < prog c s) :=
+  ⟨fun hs => prog_step c s s' t (reach_inv c hn h) hs, fun hs => prog_spur c s s' t hs⟩
+
+/-- **Termination under strong fairness, with unboundedly many spurious wake-ups** (repaired protocol): there is no
+    infinite execution in which every thread that is enabled infinitely often also performs infinitely many pthread
+    calls.  Equivalently: every strongly fair execution is finite, and by `C12_maximal_run_completes` it ends with
+    `walk_descents` returned, all workers joined and the sequential result.  (Strong fairness is needed only for the
+    mutex: `C12_weakly_fair_infinite_execution` shows that weak fairness is not enough; without spurious wake-ups no
+    fairness is needed at all: `C12_no_infinite_execution`.) -/
+theorem C12_strongly_fair_terminates (c : Cfg) (hn : 0 < c.n) (hr : c.repaired = true) (e : Exec c) :
+    ∃ t, t ≤ c.n ∧ ¬ e.StrongFair t := by
+  apply Classical.byContradiction
+  intro hno
+  exact e.not_strongly_fair hn hr (fun t ht => Classical.byContradiction fun hnf => hno ⟨t, ht, hnf⟩)
+
 /-! ## Deepening (3): the numerical result is a fixed function of the inputs
 
 `PsV.Sync.DState` (Model/SyncData.lean) carries the data: the shared `x`, the per-worker records, what each worker
@@ -519,6 +541,12 @@ def spurSchedule : List (Nat × Bool) := [(0,false),(1,false),(1,false),(1,true)
 example : (runSched fairCfg (init fairCfg) spurSchedule).isSome = true ∧ nspur spurSchedule = 2 := by decide
 -- `C12_no_infinite_execution`: infinite executions exist (with infinitely many spurious wake-ups)
 example : Nonempty (Exec fairCfg) := let ⟨e, _⟩ := C12_weakly_fair_infinite_execution; ⟨e⟩
+-- `C12_strongly_fair_terminates`: `fairCfg` is repaired and has an infinite execution (the one above, unfair to thread 0)
+example : fairCfg.repaired = true ∧ 0 < fairCfg.n ∧ Nonempty (Exec fairCfg) :=
+  ⟨rfl, by decide, let ⟨e, _⟩ := C12_weakly_fair_infinite_execution; ⟨e⟩⟩
+-- `C12_progress_measure`: a futile position (worker 0 woken spuriously with state WAIT) and a non-futile one
+example : ∃ s, runSched fairCfg (init fairCfg) [(0,false),(1,false),(1,false),(1,true)] = some s ∧
+    futile fairCfg s 1 = true ∧ futile fairCfg s 0 = false := by decide
 -- `C12_maximal_run_completes`: the complete run above ends in a state without enabled transition
 example : ∃ s, runSched (c12ex true) (init (c12ex true)) (exSchedule.map fun t => (t, false)) = some s ∧
     anyEnabled (c12ex true) s = false := by decide
